@@ -31,6 +31,8 @@ def run_one(idx, patch, props, tier):
         for p in props:
             r = subprocess.run([os.path.join(VERIF, "check"), p, "--src", repo, "--tier", tier], env=env, stdout=subprocess.PIPE, stderr=subprocess.STDOUT, text=True)
             res[p] = r.returncode
+            if r.returncode == 2 and any(v == 2 for k, v in res.items() if k != p):
+                continue
             if r.returncode != 0:
                 logs.append("\n".join(l for l in r.stdout.splitlines() if not l.startswith("WARNING conda"))[:3000])
         return patch, "OK", res, "\n".join(logs)
@@ -61,8 +63,10 @@ def main():
             hit = [p for p, rc in res.items() if rc == 1]
             broken = [p for p, rc in res.items() if rc not in (0, 1)]
             print("%s: %s detected_by=%s%s" % (patch, st, ",".join(hit) or "-", (" MACHINERY=" + ",".join(broken)) if broken else ""))
-            if verbose or broken or st != "OK":
+            if verbose:
                 print(log)
+            elif broken or st != "OK":
+                print("\n".join(log.splitlines()[:12]))
     return 0
 
 if __name__ == "__main__":
